@@ -492,6 +492,14 @@ def run(chk):
 
     chk.extra.setdefault('domains', {})['hands'] = len(fam)
     framing(chk)
+    # R9: what is actually relayed (per recipient) is understood by the bundled client - whole abstract sessions with alerted calls,
+    # including alerted passes and doubles, on the communication skeleton (sa.skeleton)
+    from . import session as S
+    fam9 = [(dict(boards=[S.board(d, c, ex, wi, 'NONE', alerts=al)]), pol) for d, c, ex, wi, al, pol in (
+        ('N', 'E', 1, 1, (0, -1), 'rr'), ('E', 'E', 2, 4, (1, -2), 'fifo'), ('S', 'N', 0, 2, (-3,), 'rand:1'), ('W', 'S', 3, 0, (0, 2, -1), 'lifo'))]
+    res9 = S.run_family(chk, ['duality'], fam9)
+    S.record(chk, res9, as_rule='C19.R9')
+    chk.floor('C19.R9', 'abstract sessions with alerted calls', len(res9), 4)
 
 
 def framing(chk):
